@@ -161,7 +161,12 @@ type mFeature struct {
 	props map[string]interface{}
 }
 
-func modelLayer(l *mvt.Layer) (out []mFeature, hasCollection bool) {
+// modelLayerW with mode -2 is the behaviour recorded as KF-C03-collection-flattening: only the first member
+// of a collection becomes a feature. A difference is filed under that finding only if the tile matches this model
+// exactly; anything else that happens to involve a collection is an ordinary violation.
+func modelLayer(l *mvt.Layer) (out []mFeature, hasCollection bool) { return modelLayerW(l, -1) }
+
+func modelLayerW(l *mvt.Layer, mode int) (out []mFeature, hasCollection bool) {
 	for _, f := range l.Features {
 		if f.Geometry == nil {
 			continue
@@ -175,7 +180,10 @@ func modelLayer(l *mvt.Layer) (out []mFeature, hasCollection bool) {
 		}
 		if col, ok := f.Geometry.(orb.Collection); ok {
 			hasCollection = true
-			for _, m := range col {
+			for i, m := range col {
+				if i > 0 && mode == -2 {
+					break
+				}
 				out = append(out, mFeature{modelGeometry(m), modelID(f.ID), props})
 			}
 			continue
@@ -187,12 +195,22 @@ func modelLayer(l *mvt.Layer) (out []mFeature, hasCollection bool) {
 
 // compare decoded layers with the model; returns the first difference
 func compare(in, got mvt.Layers) (diff string, collection bool) {
+	diff, collection = compareW(in, got, -1)
+	if diff != "" && collection {
+		if d2, _ := compareW(in, got, -2); d2 != "" {
+			collection = false // not the recorded behaviour either: an ordinary violation
+		}
+	}
+	return
+}
+
+func compareW(in, got mvt.Layers, mode int) (diff string, collection bool) {
 	if len(in) != len(got) {
 		return fmt.Sprintf("%d layers, want %d", len(got), len(in)), false
 	}
 	for li, l := range in {
 		g := got[li]
-		want, hasCol := modelLayer(l)
+		want, hasCol := modelLayerW(l, mode)
 		if hasCol {
 			collection = true
 		}
@@ -229,8 +247,16 @@ func roundTrip(c *mc.Ctx, layers mvt.Layers, desc string) {
 	if err != nil {
 		cl := "marshal-error"
 		for _, l := range layers {
-			if _, hc := modelLayer(l); hc {
-				cl = "mvt:collection-flattening"
+			for _, f := range l.Features {
+				// the recorded behaviour: an empty collection, or one whose first member is itself a collection, is
+				// handed to the geometry encoder as a collection and refused
+				if col, ok := f.Geometry.(orb.Collection); ok {
+					if len(col) == 0 {
+						cl = "mvt:collection-flattening"
+					} else if _, nested := col[0].(orb.Collection); nested {
+						cl = "mvt:collection-flattening"
+					}
+				}
 			}
 		}
 		c.Failf(cl, "Marshal: %v | %s", err, desc)
